@@ -40,7 +40,7 @@ def known_defs(ref):
 
 GEN = r"""
 DataOfLen(n) == [i \in 1..n |-> 96 + i]
-StrDatas == {DataOfLen(n) : n \in {1, 2, 3, 4, 7}}
+StrDatas == {DataOfLen(n) : n \in {0, 1, 2, 3, 4, 7}}
 W32 == {<<0,0,0,0>>, <<128,0,0,0>>, <<255,255,255,255>>, <<1,2,3,4>>}
 W64 == {<<0,0,0,0,0,0,0,0>>, <<255,255,255,255,255,255,255,255>>, <<1,2,3,4,5,6,7,8>>}
 AddrDatas == {<<0,1,10,0,0,1>>, <<0,2, 32,1,13,184, 0,0,0,0, 0,0,0,0, 0,0,0,1>>}
@@ -197,6 +197,15 @@ def run(rep):
             reflag_seen += 1
         if len(rep.violations) >= 40:
             break
+    # the decoder must not depend on what it decoded before: second pass in reverse order
+    if not rep.violations:
+        for k, v in reversed(list(enumerate(vecs))):
+            if rep.tier == "quick" and k % 2:
+                continue
+            rep.case(("second pass", k))
+            check_vector(rep, v, {"kind": "stream", "bytes": bytes(v["bytes"]).hex(), "note": "second pass, reverse order"})
+            if len(rep.violations) >= 10:
+                break
     rep.notes["vectors"] = len(vecs)
     rep.notes["vectors_where_known_deviation_changes_the_expected_result"] = reflag_seen
     rep.sample({"vector": {"bytes": bytes(vecs[len(vecs) // 2]["bytes"]).hex(), "view": vecs[len(vecs) // 2]["view"]}})
@@ -220,6 +229,7 @@ def run(rep):
     rng = random.Random(rep.seed * 7919 + 2)
     n = 1200 if rep.tier == "quick" else 40000
     descs = [d for d in dictx.descriptors() if d.name in ref]
+    known_keys = {(e["vendor"], e["code"]) for e in ref.values()}
     recs, meta = [], []
     for i in range(n):
         msgs = []
@@ -230,8 +240,15 @@ def run(rep):
                     if rng.random() < 0.8:
                         d = descs[(i * 3 + len(specs)) % len(descs)] if rng.random() < 0.6 else rng.choice(descs)
                         _o, s = dictx.make_avp(d, rng, length=rng.choice([None, 1, 2, 3, 4, 5, 8]))
-                    else:
+                    elif rng.random() < 0.5:
                         _o, s = dictx.make_generic(rng, length=rng.choice([0, 1, 2, 3, 4, 7]))
+                    else:
+                        # a dictionary code under a foreign vendor / without its vendor: stays a generic AVP
+                        d = rng.choice(descs)
+                        vendor = rng.choice([99999, 13020, 4294967295]) if (d.vendor is None or rng.random() < 0.6) else None
+                        if (vendor, d.code) in known_keys:
+                            continue
+                        _o, s = dictx.make_generic(rng, code=d.code, vendor=vendor, length=rng.choice([0, 1, 3, 4, 8]))
                     specs.append(s)
                 except BaseException:
                     continue
